@@ -9,12 +9,12 @@
      text_line_height f ts         LineHeight::to_absolute(character height), saturating to i32
      render calls p                colour of pixel p after the calls (None = untouched)
      shift_y p d = (p.x, p.y + d);  with_base ts b = ts with baseline b;  no_nl l = '\n' does not occur in l;
-     clean_line l = no_nl l and l does not end in '\r';  join_lines l0 [(crlf1,l1);...] = l0 sep1 l1 sep2 ... with
+     clean_line l = no_nl l and l does not end in '\r';  crlf_ok: see C15_crlf_eq_lf_lines;  line_box f s ts (l,p) = measure_string box of l at p;  join_lines l0 [(crlf1,l1);...] = l0 sep1 l1 sep2 ... with
      sep = "\r\n" if crlf else "\n";  as_lf = the same lines, every separator "\n"
      advance_consistent f s l      spacing = 0 (all built-in fonts), or a text/background colour is set, or l is empty
      font_ok / draw_ok             range conditions of C14 (fields non-negative, |coordinates| <= 2^28)  *)
 From EG Require Import Base.Prelude Model.Geometry Proofs.Geometry Model.Fontmodel Proofs.Fontmodel
-  Model.Textmodel Proofs.Textmodel Gen.FontTable Model.Fontbuiltin Proofs.Fontbuiltin Proofs.Textbuiltin.
+  Model.Textmodel Proofs.Textmodel Proofs.Textbox Gen.FontTable Model.Fontbuiltin Proofs.Fontbuiltin Proofs.Textbuiltin.
 
 (* draw_string returns the position that measure_string predicts *)
 Theorem C15_draw_returns_measured : forall F s text pos b,
@@ -41,6 +41,7 @@ Proof. exact builtin_draw_returns_measured. Qed.
 Theorem C15_chain_left : forall F s ts pos s1 s2 p,
   t_align ts = ALeft -> font_ok (mf_geom F) -> f_sp (mf_geom F) = 0 ->
   no_nl s1 -> no_nl s2 -> strip_cr s1 = s1 -> draw_ok (mf_geom F) pos (length (s1 ++ s2)) ->
+  index_ok F (s1 ++ s2) ->
   let r1 := text_draw F s ts pos s1 in
   let r2 := text_draw F s ts (snd r1) s2 in
   let r12 := text_draw F s ts pos (s1 ++ s2) in
@@ -51,7 +52,7 @@ Theorem C15_chain_left_after_lines : forall F s ts pos a lk s2 p,
   t_align ts = ALeft -> font_ok (mf_geom F) -> f_sp (mf_geom F) = 0 ->
   no_nl lk -> no_nl s2 -> strip_cr lk = lk ->
   let pos2 := shift_y pos (Z.of_nat (length (split_nl a)) * text_line_height (mf_geom F) ts) in
-  draw_ok (mf_geom F) pos2 (length (lk ++ s2)) ->
+  draw_ok (mf_geom F) pos2 (length (lk ++ s2)) -> index_ok F (lk ++ s2) ->
   let s1 := a ++ 10 :: lk in
   let r1 := text_draw F s ts pos s1 in
   let r2 := text_draw F s ts (snd r1) s2 in
@@ -123,27 +124,100 @@ Theorem C15_newline_split : forall F s ts pos l r,
   (fst (text_draw F s ts pos l) ++ fst (text_draw F s ts pos2 r), snd (text_draw F s ts pos2 r)).
 Proof. exact text_draw_newline_split. Qed.
 
-(* "\r\n" behaves exactly like "\n": same lines, same draw calls, same returned position, same bounding box *)
+(* "\r\n" behaves exactly like "\n": same lines, same draw calls, same returned position, same bounding box.
+   crlf_ok l0 rest: no line contains '\n', and a line that is FOLLOWED BY "\r\n" does not itself end in '\r'
+   (Text strips exactly one trailing '\r' per line, so "x\r" + "\r\n" keeps one CR: C15_crlf_needs_condition).
+   Mid-line and leading '\r', and a trailing '\r' of the last line or before a plain "\n", are allowed. *)
 Theorem C15_crlf_eq_lf_lines : forall f s ts pos l0 rest,
-  clean_line l0 -> Forall (fun bl => clean_line (snd bl)) rest ->
+  crlf_ok l0 rest ->
   text_lines f s ts pos (join_lines l0 rest) = text_lines f s ts pos (join_lines l0 (as_lf rest)).
-Proof. exact text_lines_crlf. Qed.
+Proof. exact text_lines_crlf_ok. Qed.
 
 Theorem C15_crlf_eq_lf : forall F s ts pos l0 rest,
-  clean_line l0 -> Forall (fun bl => clean_line (snd bl)) rest ->
+  crlf_ok l0 rest ->
   text_draw F s ts pos (join_lines l0 rest) = text_draw F s ts pos (join_lines l0 (as_lf rest)).
-Proof. exact text_draw_crlf. Qed.
+Proof. exact text_draw_crlf_ok. Qed.
 
 Theorem C15_crlf_eq_lf_bounding_box : forall f s ts pos l0 rest,
-  clean_line l0 -> Forall (fun bl => clean_line (snd bl)) rest ->
+  crlf_ok l0 rest ->
   text_bbox f s ts pos (join_lines l0 rest) = text_bbox f s ts pos (join_lines l0 (as_lf rest)).
-Proof. exact text_bbox_crlf. Qed.
+Proof. exact text_bbox_crlf_ok. Qed.
 
-(* and the lines that are drawn are exactly the joined lines (separators and '\r' removed) *)
+(* and the lines that are drawn are exactly the joined lines, each without one trailing '\r' *)
 Theorem C15_lines_of_joined_text : forall f s ts pos l0 rest,
-  clean_line l0 -> Forall (fun bl => clean_line (snd bl)) rest ->
-  map fst (text_lines f s ts pos (join_lines l0 rest)) = l0 :: map snd rest.
-Proof. exact text_lines_of_join. Qed.
+  crlf_ok l0 rest ->
+  map fst (text_lines f s ts pos (join_lines l0 rest)) = map strip_cr (l0 :: map snd rest).
+Proof. exact text_lines_of_join_ok. Qed.
+
+(* lines that do not end in '\r' at all satisfy the condition *)
+Theorem C15_clean_lines_are_crlf_ok : forall l0 rest,
+  clean_line l0 -> Forall (fun bl => clean_line (snd bl)) rest -> crlf_ok l0 rest.
+Proof. exact clean_crlf_ok. Qed.
+
+(* the condition is necessary: "x\r\r\n" is not "x\r\n"; and it is not needed for the last line *)
+Example C15_crlf_needs_condition :
+  let f := Font 8 6 4 3 0 2 (Deco 4 1) (Deco 1 1) in
+  let s := CStyle (Some 7) None DNone DNone in
+  let ts := TStyle ARight BTop (LHPixels 5) in
+  text_lines f s ts (P 0 0) [120; 13; 13; 10] <> text_lines f s ts (P 0 0) [120; 13; 10] /\
+  ~ crlf_ok [120; 13] [(true, [])] /\
+  text_lines f s ts (P 0 0) [97; 13; 98; 13; 10; 99; 100; 13] = text_lines f s ts (P 0 0) [97; 13; 98; 10; 99; 100; 13] /\
+  crlf_ok [97; 13; 98] [(true, [99; 100; 13])].
+Proof.
+  cbn zeta. split; [vm_compute; discriminate|]. split.
+  { intros (_ & H & _). specialize (H eq_refl). vm_compute in H. discriminate. }
+  split; [vm_compute; reflexivity|].
+  cbn [crlf_ok]. unfold no_nl. repeat split; try (vm_compute; reflexivity); cbn [In]; intuition discriminate.
+Qed.
+
+(* ------------------------------------------------------------------ exact positions, bounding box *)
+
+(* where Text::lines puts the k-th line, exactly (fixes the rounding direction of Center: towards x for
+   widths >= 1, i.e. left = x - trunc((w-1)/2)) *)
+Theorem C15_line_position_exact : forall f s ts pos text k line p,
+  0 <= f_cw f -> 0 <= f_sp f ->
+  nth_error (text_lines f s ts pos text) k = Some (line, p) ->
+  let w := line_width f (length line) in
+  p = P (px pos - match t_align ts with ALeft => 0 | ARight => w - 1 | ACenter => Z.quot (w - 1) 2 end)
+        (py pos + Z.of_nat k * text_line_height f ts).
+Proof. exact line_position_exact. Qed.
+
+(* Text::bounding_box is the hull of the per-line measure_string boxes: it contains each of them ... *)
+Theorem C15_bbox_contains_line_boxes : forall f s ts pos text lp q,
+  In lp (text_lines f s ts pos text) -> contains (line_box f s ts lp) q = true ->
+  contains (text_bbox f s ts pos text) q = true.
+Proof. exact text_bbox_contains_line_boxes. Qed.
+
+(* ... and is the smallest rectangle that does (tightness) ... *)
+Theorem C15_bbox_is_hull : forall f s ts pos text c,
+  (forall lp q, In lp (text_lines f s ts pos text) -> contains (line_box f s ts lp) q = true -> contains c q = true) ->
+  forall q, contains (text_bbox f s ts pos text) q = true -> contains c q = true.
+Proof. exact text_bbox_smallest. Qed.
+
+(* ... and without any non-empty line it is the zero-sized rectangle at the text position *)
+Theorem C15_bbox_of_empty_lines : forall f s ts pos text,
+  0 <= f_cw f -> 0 <= f_sp f ->
+  (forall line p, In (line, p) (text_lines f s ts pos text) -> line = []) ->
+  text_bbox f s ts pos text = R pos (S 0 0).
+Proof. exact text_bbox_all_empty. Qed.
+
+(* ------------------------------------------------------------------ on the property's quantifier: built-in fonts *)
+Theorem C15_builtin_text_draw_returns_measured : forall b idx atlas s ts pos text line p,
+  In b fonts ->
+  let F := MFont (bf_font b) idx atlas in
+  last_opt (text_lines (bf_font b) s ts pos text) = Some (line, p) ->
+  snd (text_draw F s ts pos text) = snd (measure_string (bf_font b) s line p (t_base ts)).
+Proof. exact builtin_text_draw_returns_measured. Qed.
+
+Theorem C15_builtin_chain_left : forall b atlas s ts pos s1 s2 q,
+  In b fonts ->
+  let F := MFont (bf_font b) (builtin_index b) atlas in
+  t_align ts = ALeft -> no_nl s1 -> no_nl s2 -> strip_cr s1 = s1 -> draw_ok (bf_font b) pos (length (s1 ++ s2)) ->
+  let r1 := text_draw F s ts pos s1 in
+  let r2 := text_draw F s ts (snd r1) s2 in
+  let r12 := text_draw F s ts pos (s1 ++ s2) in
+  snd r2 = snd r12 /\ render (fst r1 ++ fst r2) q = render (fst r12) q.
+Proof. exact builtin_chain_left. Qed.
 
 (* ------------------------------------------------------------------ non-vacuity *)
 Example C15_example :
